@@ -5,14 +5,17 @@
 //!
 //! Store shapes come from one fixed family of `#[derive(Store, Patch)]` types:
 //!   Root { a: u32, mid: Mid, opt: Option<Leaf>, list: Vec<Leaf>, #[store(key: u32 = |r| r.id)] rows: Vec<Row>,
-//!          #[patch(|this, new| *this = new)] boxed: Box<Leaf> }
+//!          #[patch(|this, new| *this = new)] boxed: Box<Leaf>, attr: Attr }
+//!   Attr { sf: SkipFirst{#[store(skip)] s, a, b}, sm: SkipMid{a, #[store(skip)] s, b, c: Leaf},
+//!          sl: SkipLast{a, b, #[store(skip)] s}, tu: Tup(u32, Leaf, u32, #[store(skip)] u32),
+//!          #[patch(..)] en: En }      enum En { A{x, y}, B(u32, Leaf), C }
 //!   Mid  { x: u32, inner: Leaf, #[store(key: u32 = |r| r.id)] rows: Vec<Row>, opt: Option<Leaf> }
 //!   Leaf { v: u32, w: u32 }          Row { id: u32, label: u32, sub: Leaf }
 //!
 //! Values (no spaces): leaf `7`, struct `{a,b}`, `Option` `~` / `?x`, `Vec` `[a,b]`, keyed `Vec` `<a,b>`,
-//! `Box<Leaf>` `(a,b)` (accessed through `DerefedField`, which adds no path segment).
+//! `Box<Leaf>` `(a,b)` (accessed through `DerefedField`, which adds no path segment), enum `^variant,fields..$`.
 //! Accessor chains: `-` (the store itself) or `.`-separated `f<i>` (struct field / `unwrap()` = f0),
-//! `i<n>` (`at_unkeyed(n)`), `k<i>` (keyed field), `@<key>` (`AtKeyed`).
+//! `i<n>` (`at_unkeyed(n)`), `k<i>` (keyed field), `@<key>` (`AtKeyed`), `v<variant>_<i>` (field i of an enum variant).
 //!
 //! Op grammar (one line each; every line answers `<observable> ## <verdict>`):
 //!   case <n>
@@ -23,10 +26,14 @@
 //!                                    iter (`for` over a keyed field / `.iter_unkeyed()`, every item `.get()`),
 //!                                    field<k> | arc<k> (the accessor after k steps is converted to a `Field` /
 //!                                    `ArcField` handle when the reader is created; the rest of the chain goes through it)
+//!                                    variant (the enum's `variant_field()` accessor is called inside the reader;
+//!                                    otherwise the `Subfield` of a variant's field is held from creation on)
 //!   imm <chain> [how]                the same as an `ImmediateEffect` (runs inside `notify`: wake order)
 //!   effi | immi <kchain>             = `eff | imm <kchain> iter`
-//!   set|upd|wr <chain> <value>       `.set(v)` / `.update(|x| *x = v)` / `*f.write() = v`
-//!   patch <chain> <value>            `Patch::patch`
+//!   set|upd|wr <chain> <value> [field<k>|arc<k>]   `.set(v)` / `.update(|x| *x = v)` / `*f.write() = v`; with the
+//!                                    last word the accessor after k steps is first converted to a `Field` /
+//!                                    `ArcField` (`.into()`) and the write goes through that handle
+//!   patch <chain> <value> [field<k>|arc<k>]        `Patch::patch`, likewise
 //!   kpush <kchain> <row> | kremove <kchain> <i> | kswap <kchain> <i> <j> | krev <kchain>   through `.write()`
 //!   poll <i>                         poll the (i mod len)-th woken effect task
 //!   idle                             poll woken tasks in spawn order until none is left
@@ -35,7 +42,9 @@
 //!  * after a write exactly the readers whose chain is prefix-related to a written field are woken (Effect:
 //!    appear in the ready list; ImmediateEffect: appear in the run log); for `patch` the written fields are
 //!    the fields that differ; a reader through `map` / `invert` counts as a reader of the Option field itself;
-//!    readers of a key that has never been in the collection are not judged;
+//!    readers of a key that has never been in the collection are not judged, nor are held `Subfield`s of a
+//!    field of an enum variant the value is not in; `#[store(skip)]` fields have no accessor (no reader, no
+//!    direct write: outside the property), their sibling fields are ordinary struct fields (inside);
 //!  * every run logs the current value of its field (a panic or a stale/absent value fails);
 //!  * immediate readers of proper ancestors of the written field run before those of its proper descendants.
 use hx_common::*;
@@ -45,7 +54,7 @@ use reactive_graph::{
     traits::*,
 };
 use reactive_stores::{
-    ArcField, AtKeyed, DerefField, Field, KeyedSubfield, OptionStoreExt, Patch, PatchField, Store, StoreField,
+    ArcField, AtKeyed, DerefField, Field, KeyedSubfield, OptionStoreExt, Patch, Store, StoreField,
     StoreFieldIterator,
 };
 use std::ops::Deref;
@@ -84,6 +93,52 @@ pub struct Root {
     /// read through `DerefedField` (`.deref_field()`), patched as a whole by its parent
     #[patch(|this, new| *this = new)]
     boxed: Box<Leaf>,
+    /// shapes with attributes: `#[store(skip)]` first / in the middle / last, a tuple struct, an enum
+    attr: Attr,
+}
+#[derive(Store, Patch, Clone, Debug, Default, PartialEq)]
+pub struct SkipFirst {
+    #[store(skip)]
+    s: u32,
+    a: u32,
+    b: u32,
+}
+#[derive(Store, Patch, Clone, Debug, Default, PartialEq)]
+pub struct SkipMid {
+    a: u32,
+    #[store(skip)]
+    s: u32,
+    b: u32,
+    c: Leaf,
+}
+#[derive(Store, Patch, Clone, Debug, Default, PartialEq)]
+pub struct SkipLast {
+    a: u32,
+    b: u32,
+    #[store(skip)]
+    s: u32,
+}
+#[derive(Store, Patch, Clone, Debug, Default, PartialEq)]
+pub struct Tup(u32, Leaf, u32, #[store(skip)] u32);
+#[derive(Store, Clone, Debug, Default, PartialEq)]
+pub enum En {
+    A {
+        x: u32,
+        y: u32,
+    },
+    B(u32, Leaf),
+    #[default]
+    C,
+}
+#[derive(Store, Patch, Clone, Debug, Default, PartialEq)]
+pub struct Attr {
+    sf: SkipFirst,
+    sm: SkipMid,
+    sl: SkipLast,
+    tu: Tup,
+    /// `derive(Patch)` does not take enums
+    #[patch(|this, new| *this = new)]
+    en: En,
 }
 
 // ---------------------------------------------------------------- generic values
@@ -95,6 +150,7 @@ enum Tag {
     Vec,
     KVec,
     Atom,
+    Enumv,
 }
 #[derive(Clone, Debug, PartialEq, Eq)]
 enum V {
@@ -114,6 +170,7 @@ fn show(v: &V) -> String {
                 Tag::Struct => ('{', '}'),
                 Tag::Vec => ('[', ']'),
                 Tag::Atom => ('(', ')'),
+                Tag::Enumv => ('^', '$'),
                 _ => ('<', '>'),
             };
             format!("{o}{}{c}", xs.iter().map(show).collect::<Vec<_>>().join(","))
@@ -128,6 +185,7 @@ fn parse_v(s: &str) -> Option<V> {
             b'[' => items(b, i, b']').map(|x| V::Node(Tag::Vec, x)),
             b'<' => items(b, i, b'>').map(|x| V::Node(Tag::KVec, x)),
             b'(' => items(b, i, b')').map(|x| V::Node(Tag::Atom, x)),
+            b'^' => items(b, i, b'$').map(|x| V::Node(Tag::Enumv, x)),
             b'~' => {
                 *i += 1;
                 Some(V::Node(Tag::Opt, vec![]))
@@ -244,6 +302,78 @@ impl Conv for Vec<Row> {
         fields(v, Tag::KVec, None)?.iter().map(Row::from_v).collect()
     }
 }
+impl Conv for SkipFirst {
+    fn to_v(&self) -> V {
+        V::Node(Tag::Struct, vec![self.s.to_v(), self.a.to_v(), self.b.to_v()])
+    }
+    fn from_v(v: &V) -> Option<Self> {
+        let f = fields(v, Tag::Struct, Some(3))?;
+        Some(SkipFirst { s: u32::from_v(&f[0])?, a: u32::from_v(&f[1])?, b: u32::from_v(&f[2])? })
+    }
+}
+impl Conv for SkipMid {
+    fn to_v(&self) -> V {
+        V::Node(Tag::Struct, vec![self.a.to_v(), self.s.to_v(), self.b.to_v(), self.c.to_v()])
+    }
+    fn from_v(v: &V) -> Option<Self> {
+        let f = fields(v, Tag::Struct, Some(4))?;
+        Some(SkipMid { a: u32::from_v(&f[0])?, s: u32::from_v(&f[1])?, b: u32::from_v(&f[2])?, c: Leaf::from_v(&f[3])? })
+    }
+}
+impl Conv for SkipLast {
+    fn to_v(&self) -> V {
+        V::Node(Tag::Struct, vec![self.a.to_v(), self.b.to_v(), self.s.to_v()])
+    }
+    fn from_v(v: &V) -> Option<Self> {
+        let f = fields(v, Tag::Struct, Some(3))?;
+        Some(SkipLast { a: u32::from_v(&f[0])?, b: u32::from_v(&f[1])?, s: u32::from_v(&f[2])? })
+    }
+}
+impl Conv for Tup {
+    fn to_v(&self) -> V {
+        V::Node(Tag::Struct, vec![self.0.to_v(), self.1.to_v(), self.2.to_v(), self.3.to_v()])
+    }
+    fn from_v(v: &V) -> Option<Self> {
+        let f = fields(v, Tag::Struct, Some(4))?;
+        Some(Tup(u32::from_v(&f[0])?, Leaf::from_v(&f[1])?, u32::from_v(&f[2])?, u32::from_v(&f[3])?))
+    }
+}
+impl Conv for En {
+    fn to_v(&self) -> V {
+        V::Node(
+            Tag::Enumv,
+            match self {
+                En::A { x, y } => vec![V::Leaf(0), x.to_v(), y.to_v()],
+                En::B(a, b) => vec![V::Leaf(1), a.to_v(), b.to_v()],
+                En::C => vec![V::Leaf(2)],
+            },
+        )
+    }
+    fn from_v(v: &V) -> Option<Self> {
+        let f = fields(v, Tag::Enumv, None)?;
+        match f {
+            [V::Leaf(0), x, y] => Some(En::A { x: u32::from_v(x)?, y: u32::from_v(y)? }),
+            [V::Leaf(1), a, b] => Some(En::B(u32::from_v(a)?, Leaf::from_v(b)?)),
+            [V::Leaf(2)] => Some(En::C),
+            _ => None,
+        }
+    }
+}
+impl Conv for Attr {
+    fn to_v(&self) -> V {
+        V::Node(Tag::Struct, vec![self.sf.to_v(), self.sm.to_v(), self.sl.to_v(), self.tu.to_v(), self.en.to_v()])
+    }
+    fn from_v(v: &V) -> Option<Self> {
+        let f = fields(v, Tag::Struct, Some(5))?;
+        Some(Attr {
+            sf: SkipFirst::from_v(&f[0])?,
+            sm: SkipMid::from_v(&f[1])?,
+            sl: SkipLast::from_v(&f[2])?,
+            tu: Tup::from_v(&f[3])?,
+            en: En::from_v(&f[4])?,
+        })
+    }
+}
 impl Conv for Mid {
     fn to_v(&self) -> V {
         V::Node(Tag::Struct, vec![self.x.to_v(), self.inner.to_v(), self.rows.to_v(), self.opt.to_v()])
@@ -269,11 +399,12 @@ impl Conv for Root {
                 self.list.to_v(),
                 self.rows.to_v(),
                 self.boxed.to_v(),
+                self.attr.to_v(),
             ],
         )
     }
     fn from_v(v: &V) -> Option<Self> {
-        let f = fields(v, Tag::Struct, Some(6))?;
+        let f = fields(v, Tag::Struct, Some(7))?;
         Some(Root {
             a: u32::from_v(&f[0])?,
             mid: Mid::from_v(&f[1])?,
@@ -281,6 +412,7 @@ impl Conv for Root {
             list: Vec::<Leaf>::from_v(&f[3])?,
             rows: Vec::<Row>::from_v(&f[4])?,
             boxed: Box::<Leaf>::from_v(&f[5])?,
+            attr: Attr::from_v(&f[6])?,
         })
     }
 }
@@ -293,6 +425,8 @@ enum Acc {
     Idx(usize),
     KFld(usize),
     Key(u32),
+    /// field i of enum variant v
+    Var(usize, usize),
 }
 type Chain = Vec<Acc>;
 
@@ -302,6 +436,13 @@ fn parse_chain(s: &str) -> Option<Chain> {
     }
     s.split('.')
         .map(|t| {
+            if let Some(r) = t.strip_prefix('v') {
+                let (a, b) = r.split_once('_')?;
+                return Some(Acc::Var(a.parse().ok()?, b.parse().ok()?));
+            }
+            if t.is_empty() {
+                return None;
+            }
             let (c, n) = t.split_at(1);
             if n.is_empty() || !n.bytes().all(|b| b.is_ascii_digit()) {
                 return None;
@@ -328,6 +469,7 @@ fn show_chain(c: &[Acc]) -> String {
             Acc::Idx(i) => format!("i{i}"),
             Acc::KFld(i) => format!("k{i}"),
             Acc::Key(k) => format!("@{k}"),
+            Acc::Var(v, i) => format!("v{v}_{i}"),
         })
         .collect::<Vec<_>>()
         .join(".")
@@ -351,6 +493,7 @@ enum RHow {
     Map,          // `OptionStoreExt::map` on the Option field on the way, `.get()` inside
     Invert,       // `OptionStoreExt::invert`, then `.get()`
     Iter,         // `for item in keyed_field` / `.iter_unkeyed()`, every item `.get()`
+    Variant,      // the enum's `variant_field()` accessor called inside the reader, then `.get()`
     Field(usize), // the accessor after k steps converted to `Field` when the reader is created
     Arc(usize),   // … to `ArcField`
 }
@@ -422,6 +565,27 @@ macro_rules! go {
     };
 }
 
+/// `Patch::patch` where the type has a `PatchField` impl (`derive(Patch)` does not take enums)
+trait MaybePatch: Sized {
+    fn do_patch<F: StoreField<Value = Self>>(f: &F, v: Self) -> bool;
+}
+macro_rules! can_patch {
+    ($($t:ty),*) => {$(
+        impl MaybePatch for $t {
+            fn do_patch<F: StoreField<Value = Self>>(f: &F, v: Self) -> bool {
+                f.patch(v);
+                true
+            }
+        }
+    )*};
+}
+can_patch!(u32, Leaf, Row, Mid, Root, Option<Leaf>, Vec<Leaf>, Vec<Row>, SkipFirst, SkipMid, SkipLast, Tup, Attr);
+impl MaybePatch for En {
+    fn do_patch<F: StoreField<Value = Self>>(_f: &F, _v: Self) -> bool {
+        false
+    }
+}
+
 fn id_v(v: V) -> V {
     v
 }
@@ -434,7 +598,7 @@ fn as_atom(v: V) -> V {
 }
 
 /// the accessor at the end of a chain
-fn end<T: Conv + PatchField + Clone + 'static, F: Node<T>>(f: F, op: &Do, post: fn(V) -> V) -> Out {
+fn end<T: Conv + MaybePatch + Clone + 'static, F: Node<T>>(f: F, op: &Do, post: fn(V) -> V) -> Out {
     match op {
         Do::Reader(how) => {
             let how = *how;
@@ -478,7 +642,9 @@ fn end<T: Conv + PatchField + Clone + 'static, F: Node<T>>(f: F, op: &Do, post: 
                     let _ = r.deref().to_v();
                 }
             }
-            f.patch(nv);
+            if !T::do_patch(&f, nv) {
+                return Out::Bad;
+            }
             Out::Wrote("done")
         }
         _ => Out::Bad,
@@ -607,6 +773,79 @@ fn nav_mid<F: Node<Mid>>(m: F, ch: &[Acc], op: &Do, er: Er) -> Out {
     }
 }
 
+fn nav_en<F: Node<En>>(f: F, ch: &[Acc], op: &Do, er: Er) -> Out {
+    // the four `variant_field()` accessors; `None` while the value is of another variant
+    macro_rules! var {
+        ($acc:ident, $rest:expr, $cont:ident) => {{
+            if let Do::Reader(RHow::Variant) = op {
+                let rest: Vec<Acc> = $rest.to_vec();
+                let f = f.clone();
+                Out::Reader(Box::new(move |_read| match f.clone().$acc() {
+                    Some(x) => call_reader($cont(x, &rest, &Do::Reader(RHow::Get), None)),
+                    None => "absent".into(),
+                }))
+            } else {
+                match f.$acc() {
+                    Some(x) => go!(x, er, x2, e2 => $cont(x2, $rest, op, e2)),
+                    None => Out::Bad,
+                }
+            }
+        }};
+    }
+    fn leaf_u32<G: Node<u32>>(g: G, ch: &[Acc], op: &Do, _er: Er) -> Out {
+        if ch.is_empty() {
+            end(g, op, id_v)
+        } else {
+            Out::Bad
+        }
+    }
+    fn leaf_st<G: Node<Leaf>>(g: G, ch: &[Acc], op: &Do, er: Er) -> Out {
+        nav_leafst(g, ch, op, er, id_v)
+    }
+    match ch {
+        [] => end(f, op, id_v),
+        [Acc::Var(0, 0), rest @ ..] => var!(a_x, rest, leaf_u32),
+        [Acc::Var(0, 1), rest @ ..] => var!(a_y, rest, leaf_u32),
+        [Acc::Var(1, 0), rest @ ..] => var!(b_0, rest, leaf_u32),
+        [Acc::Var(1, 1), rest @ ..] => var!(b_1, rest, leaf_st),
+        _ => Out::Bad,
+    }
+}
+
+fn nav_attr<F: Node<Attr>>(a: F, ch: &[Acc], op: &Do, er: Er) -> Out {
+    match ch {
+        [] => end(a, op, id_v),
+        [Acc::Fld(0), rest @ ..] => go!(a.sf(), er, sf, e2 => match rest {
+            [] => end(sf, op, id_v),
+            [Acc::Fld(1)] => go!(sf.a(), e2, x, _e => end(x, op, id_v)),
+            [Acc::Fld(2)] => go!(sf.b(), e2, x, _e => end(x, op, id_v)),
+            _ => Out::Bad,
+        }),
+        [Acc::Fld(1), rest @ ..] => go!(a.sm(), er, sm, e2 => match rest {
+            [] => end(sm, op, id_v),
+            [Acc::Fld(0)] => go!(sm.a(), e2, x, _e => end(x, op, id_v)),
+            [Acc::Fld(2)] => go!(sm.b(), e2, x, _e => end(x, op, id_v)),
+            [Acc::Fld(3), r2 @ ..] => go!(sm.c(), e2, x, e3 => nav_leafst(x, r2, op, e3, id_v)),
+            _ => Out::Bad,
+        }),
+        [Acc::Fld(2), rest @ ..] => go!(a.sl(), er, sl, e2 => match rest {
+            [] => end(sl, op, id_v),
+            [Acc::Fld(0)] => go!(sl.a(), e2, x, _e => end(x, op, id_v)),
+            [Acc::Fld(1)] => go!(sl.b(), e2, x, _e => end(x, op, id_v)),
+            _ => Out::Bad,
+        }),
+        [Acc::Fld(3), rest @ ..] => go!(a.tu(), er, tu, e2 => match rest {
+            [] => end(tu, op, id_v),
+            [Acc::Fld(0)] => go!(tu.field0(), e2, x, _e => end(x, op, id_v)),
+            [Acc::Fld(1), r2 @ ..] => go!(tu.field1(), e2, x, e3 => nav_leafst(x, r2, op, e3, id_v)),
+            [Acc::Fld(2)] => go!(tu.field2(), e2, x, _e => end(x, op, id_v)),
+            _ => Out::Bad,
+        }),
+        [Acc::Fld(4), rest @ ..] => go!(a.en(), er, en, e2 => nav_en(en, rest, op, e2)),
+        _ => Out::Bad,
+    }
+}
+
 fn nav_rootf<F: Node<Root>>(s: F, ch: &[Acc], op: &Do, er: Er) -> Out {
     match ch {
         [] => end(s, op, id_v),
@@ -619,15 +858,17 @@ fn nav_rootf<F: Node<Root>>(s: F, ch: &[Acc], op: &Do, er: Er) -> Out {
         [Acc::Fld(5), rest @ ..] => {
             go!(s.boxed().deref_field(), er, x, e2 => nav_leafst(x, rest, op, e2, if rest.is_empty() { as_atom } else { id_v }))
         }
+        [Acc::Fld(6), rest @ ..] => go!(s.attr(), er, x, e2 => nav_attr(x, rest, op, e2)),
         _ => Out::Bad,
     }
 }
 
-fn nav_root(s: Store<Root>, ch: &[Acc], op: &Do) -> Out {
+/// `era`: for writes, the accessor after k steps is converted to a `Field` (false) / `ArcField` (true)
+fn nav_root(s: Store<Root>, ch: &[Acc], op: &Do, era: Er) -> Out {
     let er: Er = match op {
         Do::Reader(RHow::Field(k)) => Some((*k, false)),
         Do::Reader(RHow::Arc(k)) => Some((*k, true)),
-        _ => None,
+        _ => era,
     };
     match er {
         Some((0, false)) => nav_rootf(Field::<Root>::from(s), ch, op, None),
@@ -674,6 +915,13 @@ fn logical_get(v: &V, ch: &[Acc]) -> LSeen {
             Some(c) => logical_get(c, rest),
             None => LSeen::None,
         },
+        Acc::Var(n, i) => match (v, xs.first()) {
+            (V::Node(Tag::Enumv, _), Some(V::Leaf(m))) if *m as usize == *n => match xs.get(*i + 1) {
+                Some(c) => logical_get(c, rest),
+                None => LSeen::Absent,
+            },
+            _ => LSeen::Absent,
+        },
     }
 }
 fn show_lseen(s: &LSeen) -> String {
@@ -693,13 +941,19 @@ fn guard_absent(v: &V, ch: &[Acc]) -> bool {
                 V::Node(_, xs) if *i < xs.len() => cur = &xs[*i],
                 _ => return true,
             },
+            Acc::Var(n, i) => match cur {
+                V::Node(Tag::Enumv, xs) if xs.first() == Some(&V::Leaf(*n as u32)) && *i + 1 < xs.len() => {
+                    cur = &xs[*i + 1]
+                }
+                _ => return true,
+            },
         }
     }
     false
 }
 /// the `Option` field that the chain unwraps first (its prefix length), if any
 fn opt_prefix(ch: &[Acc]) -> Option<usize> {
-    (0..ch.len()).find(|n| ty_of(&ch[..*n]) == Some(Ty::Opt))
+    (0..ch.len()).find(|n| matches!(ty_of(&ch[..*n]), Some(Ty::Opt | Ty::En)))
 }
 fn norm(ch: &[Acc]) -> Vec<Acc> {
     ch.iter().map(|a| if let Acc::KFld(i) = a { Acc::Fld(*i) } else { *a }).collect()
@@ -720,7 +974,7 @@ fn diff(old: &V, new: &V, at: &Chain, out: &mut Vec<Chain>) {
             }
         }
         // a field its parent patches as a whole
-        (V::Node(Tag::Atom, xs), V::Node(_, ys)) => {
+        (V::Node(Tag::Atom | Tag::Enumv, xs), V::Node(_, ys)) => {
             if xs != ys {
                 out.push(at.clone())
             }
@@ -799,7 +1053,7 @@ fn fmt_log(l: &[(usize, String)]) -> String {
 }
 
 fn reader_body(store: Store<Root>, chain: &Chain, how: RHow, f: &RFn) -> String {
-    let guarded = !matches!(how, RHow::Map | RHow::Invert | RHow::Iter);
+    let guarded = !matches!(how, RHow::Map | RHow::Invert | RHow::Iter | RHow::Variant);
     if guarded {
         let snap = store.read_untracked().to_v();
         if guard_absent(&snap, chain) {
@@ -837,6 +1091,7 @@ fn judge_write(
     log: &[(usize, String)],
     ws: &[Chain],
     wc: &Chain,
+    before: &V,
 ) -> &'static str {
     let snap = snapshot(c);
     let exp: Vec<usize> =
@@ -849,8 +1104,16 @@ fn judge_write(
     // against the code (the statement speaks of readers of fields)
     let excused =
         |e: &usize| !c.ever[*e] && logical_get(&snap, &c.readers[*e].chain) == LSeen::None;
-    if ra.iter().any(|e| !rb.contains(e) && !exp.contains(e) && !excused(e))
-        || ran.iter().any(|e| !exp.contains(e) && !excused(e))
+    // a held `Subfield` of a field of an enum variant that the value is not in (before and after the
+    // write) addresses no field either
+    let dead_variant = |e: &usize| {
+        let ch = &c.readers[*e].chain;
+        ch.iter().any(|a| matches!(a, Acc::Var(..)))
+            && logical_get(before, ch) == LSeen::Absent
+            && logical_get(&snap, ch) == LSeen::Absent
+    };
+    if ra.iter().any(|e| !rb.contains(e) && !exp.contains(e) && !excused(e) && !dead_variant(e))
+        || ran.iter().any(|e| !exp.contains(e) && !excused(e) && !dead_variant(e))
     {
         return "fail spurious";
     }
@@ -901,10 +1164,10 @@ fn update_ever(c: &mut Case) {
 
 fn add_reader(c: &mut Case, chain: Chain, how: RHow, imm: bool) -> bool {
     // the accessor (and an erased `Field` / `ArcField` handle, if asked for) is built once, here
-    let Out::Reader(f) = nav_root(c.store, &chain, &Do::Reader(how)) else { return false };
+    let Out::Reader(f) = nav_root(c.store, &chain, &Do::Reader(how), None) else { return false };
     let id = c.readers.len();
     let rel = match how {
-        RHow::Map | RHow::Invert => chain[..opt_prefix(&chain).unwrap_or(chain.len())].to_vec(),
+        RHow::Map | RHow::Invert | RHow::Variant => chain[..opt_prefix(&chain).unwrap_or(chain.len())].to_vec(),
         _ => chain.clone(),
     };
     c.readers.push(Reader { chain: chain.clone(), rel, imm });
@@ -928,23 +1191,39 @@ fn add_reader(c: &mut Case, chain: Chain, how: RHow, imm: bool) -> bool {
     true
 }
 
+/// may the accessor after k steps of the chain be converted to a `Field` / `ArcField`?
+fn era_ok(ch: &[Acc], k: usize) -> Option<usize> {
+    let pre = &ch[..k.min(ch.len())];
+    (k <= ch.len() && !ends_keyed(pre) && (!pre.iter().any(|a| matches!(a, Acc::Key(_))) || k == ch.len()))
+        .then_some(k)
+}
+fn parse_era(s: &str, ch: &[Acc]) -> Option<Er> {
+    if let Some(k) = s.strip_prefix("field") {
+        era_ok(ch, k.parse().ok()?).map(|k| Some((k, false)))
+    } else if let Some(k) = s.strip_prefix("arc") {
+        era_ok(ch, k.parse().ok()?).map(|k| Some((k, true)))
+    } else {
+        None
+    }
+}
+/// a held `Subfield` of an enum variant's field can only be built while the value is of that variant
+fn vars_match(v: &V, ch: &[Acc]) -> bool {
+    (0..ch.len()).all(|n| !matches!(ch[n], Acc::Var(..)) || matches!(logical_get(v, &ch[..=n]), LSeen::Val(_)))
+}
+
 /// which `how` is allowed on which chain (the driver applies the same rules)
 fn parse_how(s: &str, ch: &[Acc]) -> Option<RHow> {
-    let erased = |k: &str| -> Option<usize> {
-        let k: usize = k.parse().ok()?;
-        let pre = &ch[..k.min(ch.len())];
-        (k <= ch.len()
-            && !ends_keyed(pre)
-            && (!pre.iter().any(|a| matches!(a, Acc::Key(_))) || k == ch.len()))
-        .then_some(k)
-    };
+    let erased = |k: &str| -> Option<usize> { era_ok(ch, k.parse().ok()?) };
+    let at = opt_prefix(ch);
+    let enum_at = at.is_some_and(|n| ty_of(&ch[..n]) == Some(Ty::En));
     match s {
+        "variant" => enum_at.then_some(RHow::Variant),
         "get" => Some(RHow::Get),
         "read" => Some(RHow::Read),
         "with" => Some(RHow::With),
         "track" => Some(RHow::Track),
-        "map" => opt_prefix(ch).map(|_| RHow::Map),
-        "invert" => opt_prefix(ch).map(|_| RHow::Invert),
+        "map" => (at.is_some() && !enum_at).then_some(RHow::Map),
+        "invert" => (at.is_some() && !enum_at).then_some(RHow::Invert),
         "iter" => (ends_keyed(ch) || ty_of(ch) == Some(Ty::List)).then_some(RHow::Iter),
         _ if s.starts_with("field") => erased(&s[5..]).map(RHow::Field),
         _ if s.starts_with("arc") => erased(&s[3..]).map(RHow::Arc),
@@ -952,14 +1231,14 @@ fn parse_how(s: &str, ch: &[Acc]) -> Option<RHow> {
     }
 }
 
-fn do_write(c: &mut Case, chain: &Chain, op: Do, is_patch: bool, newv: Option<&V>) -> String {
+fn do_write(c: &mut Case, chain: &Chain, op: Do, is_patch: bool, newv: Option<&V>, era: Er) -> String {
     let snap = snapshot(c);
     let rb = ready_ids(c);
     let old = logical_get(&snap, chain);
     let wrote: &'static str = if guard_absent(&snap, chain) {
         "absent"
     } else {
-        match nav_root(c.store, chain, &op) {
+        match nav_root(c.store, chain, &op, era) {
             Out::Wrote(w) => w,
             _ => return "bad-op".into(),
         }
@@ -983,7 +1262,7 @@ fn do_write(c: &mut Case, chain: &Chain, op: Do, is_patch: bool, newv: Option<&V
     let log = take_log(c);
     let ra = ready_ids(c);
     update_ever(c);
-    let v = judge_write(c, &rb, &ra, &log, &ws, chain);
+    let v = judge_write(c, &rb, &ra, &log, &ws, chain, &snap);
     render(c, &format!("w={wrote} "), &log, v)
 }
 
@@ -1031,6 +1310,9 @@ fn op_line(case: &mut Option<Case>, w: &[&str]) -> String {
                 (true, Some(_)) => return "bad-op".into(),
             };
             let Some(how) = parse_how(how_s, &ch) else { return "bad-op".into() };
+            if how != RHow::Variant && !vars_match(&snapshot(c), &ch) {
+                return "bad-op".into();
+            }
             if !add_reader(c, ch, how, kind.starts_with("imm")) {
                 return "bad-op".into();
             }
@@ -1044,44 +1326,53 @@ fn op_line(case: &mut Option<Case>, w: &[&str]) -> String {
             if !chain_ok(&ch) || !ends_keyed(&ch) || vec_len(c, &ch).is_none() {
                 return "bad-op".into();
             }
-            do_write(c, &ch, Do::KRev, false, None)
+            do_write(c, &ch, Do::KRev, false, None, None)
         }
-        [kind @ ("set" | "upd" | "wr"), ch, v] => {
+        [kind @ ("set" | "upd" | "wr" | "patch"), ch, v, rest @ ..] if rest.len() <= 1 => {
             let (Some(ch), Some(v)) = (parse_chain(ch), parse_v(v)) else { return "bad-op".into() };
             if !chain_ok(&ch) {
                 return "bad-op".into();
+            }
+            let era: Er = match rest.first() {
+                None => None,
+                Some(e) => match parse_era(e, &ch) {
+                    Some(e) => e,
+                    None => return "bad-op".into(),
+                },
+            };
+            if !vars_match(&snapshot(c), &ch) {
+                return "bad-op".into();
+            }
+            if *kind == "patch" {
+                if ty_of(&ch) == Some(Ty::En) {
+                    return "bad-op".into();
+                }
+                if c.readers.iter().any(|r| r.imm) {
+                    // `Patch::patch` notifies while it holds the write lock: an ImmediateEffect would deadlock
+                    return "unsupported".into();
+                }
+                return do_write(c, &ch, Do::Patch(&v), true, Some(&v), era);
             }
             let how = match *kind {
                 "set" => How::Set,
                 "upd" => How::Upd,
                 _ => How::Wr,
             };
-            do_write(c, &ch, Do::Write(&v, how), false, None)
-        }
-        ["patch", ch, v] => {
-            let (Some(ch), Some(v)) = (parse_chain(ch), parse_v(v)) else { return "bad-op".into() };
-            if !chain_ok(&ch) {
-                return "bad-op".into();
-            }
-            if c.readers.iter().any(|r| r.imm) {
-                // `Patch::patch` notifies while it holds the write lock: an ImmediateEffect would deadlock
-                return "unsupported".into();
-            }
-            do_write(c, &ch, Do::Patch(&v), true, Some(&v))
+            do_write(c, &ch, Do::Write(&v, how), false, None, era)
         }
         ["kpush", ch, v] => {
             let (Some(ch), Some(v)) = (parse_chain(ch), parse_v(v)) else { return "bad-op".into() };
             if !chain_ok(&ch) || !ends_keyed(&ch) || vec_len(c, &ch).is_none() {
                 return "bad-op".into();
             }
-            do_write(c, &ch, Do::KPush(&v), false, None)
+            do_write(c, &ch, Do::KPush(&v), false, None, None)
         }
         ["kremove", ch, i] => {
             let (Some(ch), Ok(i)) = (parse_chain(ch), i.parse::<usize>()) else { return "bad-op".into() };
             if !chain_ok(&ch) || !ends_keyed(&ch) || !vec_len(c, &ch).is_some_and(|n| i < n) {
                 return "bad-op".into();
             }
-            do_write(c, &ch, Do::KRemove(i), false, None)
+            do_write(c, &ch, Do::KRemove(i), false, None, None)
         }
         ["kswap", ch, i, j] => {
             let (Some(ch), Ok(i), Ok(j)) = (parse_chain(ch), i.parse::<usize>(), j.parse::<usize>()) else {
@@ -1090,7 +1381,7 @@ fn op_line(case: &mut Option<Case>, w: &[&str]) -> String {
             if !chain_ok(&ch) || !ends_keyed(&ch) || !vec_len(c, &ch).is_some_and(|n| i < n && j < n) {
                 return "bad-op".into();
             }
-            do_write(c, &ch, Do::KSwap(i, j), false, None)
+            do_write(c, &ch, Do::KSwap(i, j), false, None, None)
         }
         _ => "bad-op".into(),
     }
@@ -1109,6 +1400,12 @@ enum Ty {
     List,
     Rows,
     Boxed,
+    Attr,
+    SkF,
+    SkM,
+    SkL,
+    Tup,
+    En,
 }
 fn ty_child(t: Ty, a: &Acc) -> Option<Ty> {
     Some(match (t, a) {
@@ -1120,6 +1417,21 @@ fn ty_child(t: Ty, a: &Acc) -> Option<Ty> {
         (Ty::Root, Acc::Fld(5)) => Ty::Boxed,
         (Ty::Boxed, Acc::Fld(0)) | (Ty::Boxed, Acc::Fld(1)) => Ty::U,
         (Ty::Mid, Acc::Fld(3)) => Ty::Opt,
+        (Ty::Root, Acc::Fld(6)) => Ty::Attr,
+        (Ty::Attr, Acc::Fld(0)) => Ty::SkF,
+        (Ty::Attr, Acc::Fld(1)) => Ty::SkM,
+        (Ty::Attr, Acc::Fld(2)) => Ty::SkL,
+        (Ty::Attr, Acc::Fld(3)) => Ty::Tup,
+        (Ty::Attr, Acc::Fld(4)) => Ty::En,
+        // skipped fields have no accessor
+        (Ty::SkF, Acc::Fld(1)) | (Ty::SkF, Acc::Fld(2)) => Ty::U,
+        (Ty::SkM, Acc::Fld(0)) | (Ty::SkM, Acc::Fld(2)) => Ty::U,
+        (Ty::SkM, Acc::Fld(3)) => Ty::Leaf,
+        (Ty::SkL, Acc::Fld(0)) | (Ty::SkL, Acc::Fld(1)) => Ty::U,
+        (Ty::Tup, Acc::Fld(0)) | (Ty::Tup, Acc::Fld(2)) => Ty::U,
+        (Ty::Tup, Acc::Fld(1)) => Ty::Leaf,
+        (Ty::En, Acc::Var(0, 0)) | (Ty::En, Acc::Var(0, 1)) | (Ty::En, Acc::Var(1, 0)) => Ty::U,
+        (Ty::En, Acc::Var(1, 1)) => Ty::Leaf,
         (Ty::Mid, Acc::Fld(0)) => Ty::U,
         (Ty::Mid, Acc::Fld(1)) => Ty::Leaf,
         (Ty::Mid, Acc::KFld(2)) => Ty::Rows,
@@ -1141,6 +1453,28 @@ fn g_leaf(r: &mut Rng) -> V {
 }
 fn g_leafst(r: &mut Rng) -> V {
     V::Node(Tag::Struct, vec![g_leaf(r), g_leaf(r)])
+}
+fn g_en(r: &mut Rng, variant: usize) -> V {
+    V::Node(
+        Tag::Enumv,
+        match variant {
+            0 => vec![V::Leaf(0), g_leaf(r), g_leaf(r)],
+            1 => vec![V::Leaf(1), g_leaf(r), g_leafst(r)],
+            _ => vec![V::Leaf(2)],
+        },
+    )
+}
+fn g_attr(r: &mut Rng, variant: usize) -> V {
+    V::Node(
+        Tag::Struct,
+        vec![
+            V::Node(Tag::Struct, vec![g_leaf(r), g_leaf(r), g_leaf(r)]),
+            V::Node(Tag::Struct, vec![g_leaf(r), g_leaf(r), g_leaf(r), g_leafst(r)]),
+            V::Node(Tag::Struct, vec![g_leaf(r), g_leaf(r), g_leaf(r)]),
+            V::Node(Tag::Struct, vec![g_leaf(r), g_leafst(r), g_leaf(r), g_leaf(r)]),
+            g_en(r, variant),
+        ],
+    )
 }
 fn g_row(r: &mut Rng, id: u32) -> V {
     V::Node(Tag::Struct, vec![V::Leaf(id), g_leaf(r), g_leafst(r)])
@@ -1211,6 +1545,38 @@ fn mutate(t: Ty, v: &V, r: &mut Rng) -> V {
                 if r.chance(1, 2) { mutate(Ty::Opt, &xs[3], r) } else { xs[3].clone() },
             ],
         ),
+        (Ty::SkF | Ty::SkL, V::Node(_, xs)) => V::Node(
+            Tag::Struct,
+            xs.iter().map(|x| if r.chance(1, 2) { mutate(Ty::U, x, r) } else { x.clone() }).collect(),
+        ),
+        (Ty::SkM, V::Node(_, xs)) | (Ty::Tup, V::Node(_, xs)) => {
+            // u32 / Leaf fields in declaration order
+            let tys: [Ty; 4] = if t == Ty::SkM { [Ty::U, Ty::U, Ty::U, Ty::Leaf] } else { [Ty::U, Ty::Leaf, Ty::U, Ty::U] };
+            V::Node(
+                Tag::Struct,
+                xs.iter().zip(tys).map(|(x, ty)| if r.chance(1, 2) { mutate(ty, x, r) } else { x.clone() }).collect(),
+            )
+        }
+        (Ty::En, V::Node(_, xs)) => {
+            if r.chance(1, 3) {
+                let nvar = r.below(3);
+                g_en(r, nvar)
+            } else {
+                // same variant, some fields change
+                match xs.as_slice() {
+                    [V::Leaf(0), x, y] => V::Node(Tag::Enumv, vec![V::Leaf(0), mutate(Ty::U, x, r), if r.chance(1, 2) { mutate(Ty::U, y, r) } else { y.clone() }]),
+                    [V::Leaf(1), a, b] => V::Node(Tag::Enumv, vec![V::Leaf(1), if r.chance(1, 2) { mutate(Ty::U, a, r) } else { a.clone() }, mutate(Ty::Leaf, b, r)]),
+                    _ => v.clone(),
+                }
+            }
+        }
+        (Ty::Attr, V::Node(_, xs)) => {
+            let tys = [Ty::SkF, Ty::SkM, Ty::SkL, Ty::Tup, Ty::En];
+            V::Node(
+                Tag::Struct,
+                xs.iter().zip(tys).map(|(x, ty)| if r.chance(1, 2) { mutate(ty, x, r) } else { x.clone() }).collect(),
+            )
+        }
         (Ty::Boxed, V::Node(_, xs)) => V::Node(
             Tag::Atom,
             xs.iter().map(|x| if r.chance(1, 2) { mutate(Ty::U, x, r) } else { x.clone() }).collect(),
@@ -1224,6 +1590,7 @@ fn mutate(t: Ty, v: &V, r: &mut Rng) -> V {
                 if r.chance(1, 2) { mutate(Ty::List, &xs[3], r) } else { xs[3].clone() },
                 if r.chance(1, 2) { mutate(Ty::Rows, &xs[4], r) } else { xs[4].clone() },
                 if r.chance(1, 2) { mutate(Ty::Boxed, &xs[5], r) } else { xs[5].clone() },
+                if r.chance(1, 3) { mutate(Ty::Attr, &xs[6], r) } else { xs[6].clone() },
             ],
         ),
         _ => v.clone(),
@@ -1236,6 +1603,13 @@ fn lget<'a>(v: &'a V, ch: &[Acc]) -> Option<&'a V> {
     match a {
         Acc::Fld(i) | Acc::Idx(i) | Acc::KFld(i) => lget(xs.get(*i)?, rest),
         Acc::Key(k) => lget(xs.iter().find(|x| key_of(x) == *k)?, rest),
+        Acc::Var(n, i) => {
+            if xs.first() == Some(&V::Leaf(*n as u32)) {
+                lget(xs.get(*i + 1)?, rest)
+            } else {
+                None
+            }
+        }
     }
 }
 fn lset(v: &mut V, ch: &[Acc], nv: V) -> bool {
@@ -1247,6 +1621,13 @@ fn lset(v: &mut V, ch: &[Acc], nv: V) -> bool {
     let c = match a {
         Acc::Fld(i) | Acc::Idx(i) | Acc::KFld(i) => xs.get_mut(*i),
         Acc::Key(k) => xs.iter_mut().find(|x| key_of(x) == *k),
+        Acc::Var(n, i) => {
+            if xs.first() == Some(&V::Leaf(*n as u32)) {
+                xs.get_mut(*i + 1)
+            } else {
+                None
+            }
+        }
     };
     match c {
         Some(c) => lset(c, rest, nv),
@@ -1280,6 +1661,29 @@ fn all_chains(keys_root: &[u32], keys_mid: &[u32], list_len: usize) -> Vec<Chain
         vec![Fld(5)],
         vec![Fld(5), Fld(0)],
         vec![Fld(5), Fld(1)],
+        vec![Fld(6)],
+        vec![Fld(6), Fld(0)],
+        vec![Fld(6), Fld(0), Fld(1)],
+        vec![Fld(6), Fld(0), Fld(2)],
+        vec![Fld(6), Fld(1)],
+        vec![Fld(6), Fld(1), Fld(0)],
+        vec![Fld(6), Fld(1), Fld(2)],
+        vec![Fld(6), Fld(1), Fld(3)],
+        vec![Fld(6), Fld(1), Fld(3), Fld(1)],
+        vec![Fld(6), Fld(2)],
+        vec![Fld(6), Fld(2), Fld(0)],
+        vec![Fld(6), Fld(2), Fld(1)],
+        vec![Fld(6), Fld(3)],
+        vec![Fld(6), Fld(3), Fld(0)],
+        vec![Fld(6), Fld(3), Fld(1)],
+        vec![Fld(6), Fld(3), Fld(1), Fld(0)],
+        vec![Fld(6), Fld(3), Fld(2)],
+        vec![Fld(6), Fld(4)],
+        vec![Fld(6), Fld(4), Var(0, 0)],
+        vec![Fld(6), Fld(4), Var(0, 1)],
+        vec![Fld(6), Fld(4), Var(1, 0)],
+        vec![Fld(6), Fld(4), Var(1, 1)],
+        vec![Fld(6), Fld(4), Var(1, 1), Fld(0)],
     ];
     for i in 0..list_len {
         out.push(vec![Fld(3), Idx(i)]);
@@ -1339,12 +1743,20 @@ fn init_root(r: &mut Rng, keys_root: &[u32], keys_mid: &[u32], list_len: usize, 
             V::Node(Tag::Vec, (0..list_len).map(|_| g_leafst(r)).collect()),
             g_rows(r, keys_root),
             V::Node(Tag::Atom, vec![g_leaf(r), g_leaf(r)]),
+            {
+                let variant = r.below(3);
+                g_attr(r, variant)
+            },
         ],
     )
 }
 
 /// a way of reading the field at `ch` (`""` = plain `.get()`), and a tag for it
-fn pick_how(r: &mut Rng, ch: &[Acc]) -> (String, &'static str) {
+fn pick_how(r: &mut Rng, ch: &[Acc], shadow: &V) -> (String, &'static str) {
+    let has_var = ch.iter().any(|a| matches!(a, Acc::Var(..)));
+    if has_var && (!vars_match(shadow, ch) || r.chance(1, 2)) {
+        return ("variant".into(), "how-enum-variant");
+    }
     if r.chance(2, 5) {
         return (String::new(), "how-get");
     }
@@ -1353,14 +1765,13 @@ fn pick_how(r: &mut Rng, ch: &[Acc]) -> (String, &'static str) {
         ("with".into(), "how-read-with-track"),
         ("track".into(), "how-read-with-track"),
     ];
-    if opt_prefix(ch).is_some() {
-        for _ in 0..3 {
-            c.push(("map".into(), "how-option-map"));
-            c.push(("invert".into(), "how-option-map"));
+    for _ in 0..3 {
+        for h in ["map", "invert"] {
+            if parse_how(h, ch).is_some() {
+                c.push((h.into(), "how-option-map"));
+            }
         }
-    }
-    if ends_keyed(ch) || ty_of(ch) == Some(Ty::List) {
-        for _ in 0..3 {
+        if parse_how("iter", ch).is_some() {
             c.push(("iter".into(), "how-iter"));
         }
     }
@@ -1375,13 +1786,42 @@ fn pick_how(r: &mut Rng, ch: &[Acc]) -> (String, &'static str) {
     r.pick(&c).clone()
 }
 
+/// through which erased handle a write goes (`""`: none)
+fn pick_era(r: &mut Rng, ch: &[Acc]) -> String {
+    if r.chance(3, 5) {
+        return String::new();
+    }
+    let mut c: Vec<String> = vec![];
+    for k in 0..=ch.len() {
+        if era_ok(ch, k).is_some() {
+            c.push(format!("field{k}"));
+            c.push(format!("arc{k}"));
+        }
+    }
+    if c.is_empty() {
+        String::new()
+    } else {
+        r.pick(&c).clone()
+    }
+}
+
+/// the value of `attr.en` is made the variant that the chain goes through
+fn force_variant(r: &mut Rng, root: &mut V, ch: &[Acc]) {
+    if let Some(Acc::Var(n, _)) = ch.iter().find(|a| matches!(a, Acc::Var(..))) {
+        let e = g_en(r, *n);
+        lset(root, &[Acc::Fld(6), Acc::Fld(4)], e);
+    }
+}
+
 /// one (write chain, read chain) pair on the standard store
 fn gen_pair(r: &mut Rng, w: &Chain, rd: &Chain) -> GenCase {
     let mut g = GenCase { lines: vec![], tags: vec!["pair"] };
-    let root = init_root(r, &[10, 11, 12], &[20, 21], 2, true);
+    let mut root = init_root(r, &[10, 11, 12], &[20, 21], 2, true);
+    force_variant(r, &mut root, rd);
+    force_variant(r, &mut root, w);
     g.lines.push(format!("init {}", show(&root)));
     let imm = r.chance(1, 4);
-    let (how, htag) = pick_how(r, rd);
+    let (how, htag) = pick_how(r, rd, &root);
     g.lines.push(format!("{} {} {}", if imm { "imm" } else { "eff" }, show_chain(rd), how).trim_end().to_string());
     g.tag(htag);
     if imm {
@@ -1391,8 +1831,15 @@ fn gen_pair(r: &mut Rng, w: &Chain, rd: &Chain) -> GenCase {
     let t = ty_of(w).unwrap();
     let nv = mutate(t, lget(&root, w).unwrap(), r);
     let how = *r.pick(&["set", "upd", "wr"]);
-    g.lines.push(format!("{how} {} {}", show_chain(w), show(&nv)));
+    let era = pick_era(r, w);
+    if !era.is_empty() {
+        g.tag("write-through-erased-handle")
+    }
+    g.lines.push(format!("{how} {} {} {era}", show_chain(w), show(&nv)).trim_end().to_string());
     g.lines.push("idle".into());
+    if w.iter().chain(rd.iter()).any(|a| matches!(a, Acc::Var(..))) {
+        g.tag("enum")
+    }
     if related(w, rd) {
         g.tag(if strict_prefix(w, rd) { "write-ancestor" } else if w.len() == rd.len() { "write-same" } else { "write-descendant" })
     } else {
@@ -1450,7 +1897,7 @@ fn gen_history(r: &mut Rng, flavour: usize) -> GenCase {
         if kind == "imm" {
             g.tag("imm")
         }
-        let (how, htag) = pick_how(r, &ch);
+        let (how, htag) = pick_how(r, &ch, &shadow);
         g.tag(htag);
         g.lines.push(format!("{kind} {} {how}", show_chain(&ch)).trim_end().to_string());
     }
@@ -1472,7 +1919,10 @@ fn gen_history(r: &mut Rng, flavour: usize) -> GenCase {
             _ => 0,
         };
         let chains: Vec<Chain> =
-            all_chains(&kroot, &kmid, list_now + 1).into_iter().filter(|c| allow(c) && !is_row_id(c)).collect();
+            all_chains(&kroot, &kmid, list_now + 1)
+                .into_iter()
+                .filter(|c| allow(c) && !is_row_id(c) && vars_match(&shadow, c))
+                .collect();
         let choice = r.below(10);
         if keyed && choice < 3 {
             // a keyed operation through `.write()`
@@ -1560,13 +2010,17 @@ fn gen_history(r: &mut Rng, flavour: usize) -> GenCase {
                             }
                         }
                     }
-                    let patch = use_patch && r.chance(1, 2);
+                    let patch = use_patch && r.chance(1, 2) && t != Ty::En;
+                    let era = pick_era(r, &ch);
+                    if !era.is_empty() {
+                        g.tag("write-through-erased-handle")
+                    }
                     if patch {
-                        g.lines.push(format!("patch {} {}", show_chain(&ch), show(&nv)));
+                        g.lines.push(format!("patch {} {} {era}", show_chain(&ch), show(&nv)).trim_end().to_string());
                         g.tag("patch");
                     } else {
                         let how = *r.pick(&["set", "upd", "wr"]);
-                        g.lines.push(format!("{how} {} {}", show_chain(&ch), show(&nv)));
+                        g.lines.push(format!("{how} {} {} {era}", show_chain(&ch), show(&nv)).trim_end().to_string());
                     }
                     // a write through the keyed field itself refreshes its key table
                     if !patch {
@@ -1724,6 +2178,92 @@ fn gen_option_cycle(r: &mut Rng) -> GenCase {
     g
 }
 
+/// shapes with attributes: readers on every accessible field of the `attr` subtree, then patches (at the
+/// shape, at `attr`, at the root) that change one field or a few: exactly the readers of the changed
+/// fields and of their ancestors must run. (`derive(Store)` and `derive(Patch)` must agree on the path
+/// segment of every field, also after a `#[store(skip)]` field and in tuple structs.)
+fn gen_attr_patch(r: &mut Rng) -> GenCase {
+    use Acc::*;
+    let mut g = GenCase { lines: vec![], tags: vec!["attr-shapes"] };
+    let mut shadow = init_root(r, &[], &[], 0, false);
+    g.lines.push(format!("init {}", show(&shadow)));
+    let attr: Chain = vec![Fld(6)];
+    let all: Vec<Chain> = all_chains(&[], &[], 0).into_iter().filter(|c| c.first() == Some(&Fld(6))).collect();
+    // one shape in focus, all of its fields watched; plus a few readers elsewhere
+    let shape = r.below(5);
+    let focus: Chain = vec![Fld(6), Fld(shape)];
+    for c in all.iter() {
+        if !(c.starts_with(&focus) || r.chance(1, 6)) {
+            continue;
+        }
+        let (how, htag) = pick_how(r, c, &shadow);
+        g.tag(htag);
+        g.lines.push(format!("eff {} {how}", show_chain(c)).trim_end().to_string());
+    }
+    g.lines.push("idle".into());
+    g.tag(["skip-first", "skip-middle", "skip-last", "tuple-struct", "enum"][shape]);
+    for _ in 0..r.range(3, 8) {
+        // the level the patch is applied at
+        let at: Chain = match r.below(4) {
+            0 => vec![],
+            1 => attr.clone(),
+            _ => focus.clone(),
+        };
+        let at = if ty_of(&at) == Some(Ty::En) { attr.clone() } else { at };
+        let mut nv = lget(&shadow, &at).unwrap().clone();
+        // change one field of the shape in focus (sometimes two, sometimes a skipped one as well)
+        let cur = lget(&shadow, &focus).unwrap().clone();
+        let new_shape = match &cur {
+            V::Node(Tag::Enumv, _) => mutate(Ty::En, &cur, r),
+            V::Node(t, xs) => {
+                let mut ys = xs.clone();
+                let tys: Vec<Ty> = match shape {
+                    0 | 2 => vec![Ty::U, Ty::U, Ty::U],
+                    1 => vec![Ty::U, Ty::U, Ty::U, Ty::Leaf],
+                    _ => vec![Ty::U, Ty::Leaf, Ty::U, Ty::U],
+                };
+                for _ in 0..(if r.chance(1, 4) { 2 } else { 1 }) {
+                    let i = r.below(ys.len());
+                    ys[i] = match tys[i] {
+                        Ty::Leaf => mutate(Ty::Leaf, &ys[i], r),
+                        _ => g_leaf(r),
+                    };
+                }
+                V::Node(*t, ys)
+            }
+            v => v.clone(),
+        };
+        lset(&mut nv, &focus[at.len()..], new_shape);
+        let era = pick_era(r, &at);
+        if !era.is_empty() {
+            g.tag("write-through-erased-handle")
+        }
+        if r.chance(4, 5) {
+            g.lines.push(format!("patch {} {} {era}", show_chain(&at), show(&nv)).trim_end().to_string());
+            g.tag("patch");
+        } else {
+            g.lines.push(format!("set {} {} {era}", show_chain(&at), show(&nv)).trim_end().to_string());
+        }
+        lset(&mut shadow, &at, nv);
+        // a direct write to one accessible field now and then
+        if r.chance(1, 4) {
+            let cands: Vec<&Chain> = all
+                .iter()
+                .filter(|c| c.starts_with(&focus) && ty_of(c) == Some(Ty::U) && vars_match(&shadow, c))
+                .collect();
+            if !cands.is_empty() {
+                let c = (*r.pick(&cands)).clone();
+                let leaf = g_leaf(r);
+                let era = pick_era(r, &c);
+                g.lines.push(format!("set {} {} {era}", show_chain(&c), show(&leaf)).trim_end().to_string());
+                lset(&mut shadow, &c, leaf);
+            }
+        }
+        g.lines.push("idle".into());
+    }
+    g
+}
+
 fn ch_has_idx(ch: &[Acc]) -> bool {
     ch.iter().any(|a| matches!(a, Acc::Idx(_)))
 }
@@ -1767,15 +2307,20 @@ fn gen(seed: u64, n: usize, path: &str, _tier: &str) -> std::io::Result<()> {
         }
     }
     while i < n {
-        let flavour = match r.below(12) {
+        let flavour = match r.below(14) {
             0..=2 => 0,
             3 | 4 => 1,
             5 | 6 => 2,
             7 => 3,
             8 | 9 => 4,
-            _ => 5,
+            10 | 11 => 5,
+            _ => 6,
         };
-        let g = if flavour == 5 { gen_option_cycle(&mut r) } else { gen_history(&mut r, flavour) };
+        let g = match flavour {
+            5 => gen_option_cycle(&mut r),
+            6 => gen_attr_patch(&mut r),
+            _ => gen_history(&mut r, flavour),
+        };
         emit(&mut f, g, i)?;
         i += 1;
     }
